@@ -127,6 +127,32 @@ var ops = []opDef{
 		}
 		return fmt.Sprint(ok, r == nil) == fmt.Sprint(ok, !ok) && ok
 	}},
+	{"UnmarshalText", "z", func(a bargs) any {
+		e := a.z.UnmarshalText([]byte(a.s))
+		if e != nil {
+			a.z.SetInt64(0)
+		}
+		return e == nil
+	}, func(a aargs) any {
+		e := a.z.UnmarshalText([]byte(a.s))
+		if e != nil {
+			a.z.SetInt64(0)
+		}
+		return e == nil
+	}},
+	{"UnmarshalJSON", "z", func(a bargs) any {
+		e := a.z.UnmarshalJSON([]byte(a.s))
+		if e != nil {
+			a.z.SetInt64(0)
+		}
+		return e == nil
+	}, func(a aargs) any {
+		e := a.z.UnmarshalJSON([]byte(a.s))
+		if e != nil {
+			a.z.SetInt64(0)
+		}
+		return e == nil
+	}},
 	{"SetBytes", "z", func(a bargs) any { return ptrRes(a.z.SetBytes(a.x.Bytes()), a.z) }, func(a aargs) any { return ptrRes(a.z.SetBytes(a.x.Bytes()), a.z) }},
 	{"SetBits", "z", func(a bargs) any { return ptrRes(a.z.SetBits(append([]big.Word(nil), a.x.Bits()...)), a.z) },
 		func(a aargs) any { return ptrRes(a.z.SetBits(append([]big.Word(nil), a.x.Bits()...)), a.z) }},
@@ -232,6 +258,22 @@ func genCase(t *rapid.T) Case {
 		s.N = int64(rapid.Uint32().Draw(t, "n"))
 		if s.Op == "SetInt64" || s.Op == "SetUint64" || s.Op == "Rand" {
 			s.N = rapid.Int64().Draw(t, "n64")
+		}
+		if s.Op == "UnmarshalText" || s.Op == "UnmarshalJSON" {
+			// base-0 text: decimal, leading-zero (octal), prefixed and underscored forms
+			switch gen.Pick(t, 4, "utk") {
+			case 0:
+				s.S = genValue(t, "ustr").String()
+			case 1:
+				s.S = "0" + gen.Digits(t, 12, "oct")
+				if rapid.Bool().Draw(t, "uneg") {
+					s.S = "-" + s.S
+				}
+			case 2:
+				s.S = rapid.SampledFrom([]string{"0x1f", "-0b101", "0o17", "1_000", "017", "-0", "+5", "", "12a", "0x", " 1", "010", "-0755", "08", "-09", "0019", "null", "\"5\"", "1e3"}).Draw(t, "us0")
+			default:
+				s.S = genValue(t, "ustr2").Text(10)
+			}
 		}
 		if s.Op == "SetString" {
 			if b := base(s.N); b != 0 {
